@@ -144,6 +144,8 @@ def build(ctx):
     writers = sorted(set(writers))
     ctx.extra['routines_writing_free_cores'] = writers
     ctx.add(core.decided('closed-world/routines-writing-free-cores', set(writers) <= {'add_attempt', 'unschedule_job', 'mark_job_complete', 'deactivate_instance'}, repr(writers), kind='scan'))
+    from contracts import sqlspec as _SP
+    _SP.engine_obligations(ctx, ex)
     ctx.assume('each procedure call is atomic (serialisable isolation); integers mathematical')
     ctx.assume('call-site facts taken as preconditions: attempt ids and instance names reported are non-NULL and an existing attempt is reported with the instance it was placed on; every instance row has a free-core row; unschedule_job is called for existing attempts; end times reported by unschedule/complete are non-NULL (the mark_job_errored call with instance None is outside the obligation)')
     ctx.assume('table invariant of attempts used as precondition and shown preserved: reason IS NOT NULL implies end_time IS NOT NULL (established because reasons are only written together with a non-NULL end time; the mark_job_errored call with end_time None is excluded by the stated precondition)')
